@@ -74,14 +74,18 @@ func (l *recListener) Start(ctx context.Context) error {
 func (l *recListener) Accept() (net.Conn, error) { select {} }
 
 type capChannel struct {
-	Name string `toml:"name"`
-	lab  *lab6
+	Name  string `toml:"name"`
+	Delay int    `toml:"delay"` // microseconds slept per delivery (a slow backend: concurrent Sends overlap)
+	lab   *lab6
 }
 
 func (c *capChannel) Send(e event.Event) {
 	l := current()
 	if l == nil || l != c.lab {
 		return // a server of an earlier case (its heartbeat goroutine lives on)
+	}
+	if c.Delay > 0 {
+		time.Sleep(time.Duration(c.Delay) * time.Microsecond)
 	}
 	m := event.ToMap(e)
 	id, ok := m["id"].(int)
